@@ -204,6 +204,8 @@ class _LoopBase:
         d["ghost"] = cur().data.get("ghost")
         d["entry"] = self.entry_env
         d["pre"] = self.pre  # snapshots of the heap objects bound to locals when the loop was entered
+        an = getattr(self, "acc_name", None)
+        d["acc"] = env.get(an) if an else None  # the local the body appends / adds to (None if not unique)
         return Namespace(d)
 
     def _inv(self, env, i, mode="prove"):
@@ -263,6 +265,8 @@ class _LoopBase:
         sp = None
         if self.spec is not None:
             sp = self.spec.locals.get(name)
+            if sp is None and name == getattr(self, "acc_name", None):
+                sp = self.spec.locals.get("@acc")
         if isinstance(value, SymObj) and not value._frozen:
             fields = None
             if self.spec is not None and name in self.spec.modifies:
@@ -366,8 +370,9 @@ def havoc_container(v, prefix):
 
 
 class ForLoop(_LoopBase):
-    def __init__(self, rt, k, it, env, names):
+    def __init__(self, rt, k, it, env, names, acc=None):
         super().__init__(rt, k, env, names)
+        self.acc_name = acc
         it = sym.resolve(it)
         self.entry_env = Namespace({kk: vv for kk, vv in env.items() if kk != "__vc__"})
         self.pre = _snap_env(env)
@@ -800,8 +805,8 @@ class RT:
         raise Unsupported(f"{kind} comprehension over a symbolic iterable")
 
     # loops
-    def loop(self, k, it, env, names):
-        return ForLoop(self, k, it, env, names)
+    def loop(self, k, it, env, names, acc=None):
+        return ForLoop(self, k, it, env, names, acc)
 
     def wloop(self, k, env, names):
         return WhileLoop(self, k, env, names)
